@@ -31,8 +31,8 @@ EXACT_KINDS = {"id", "const", "str", "enumerator"}
 
 def plan(tier, seed):
     n = 14
-    ngen = 60 if tier == "quick" else 2000
-    return [{"name": f"coord-{i}", "n": ngen, "rseed": seed * 7919 + i, "nerr": 40 if tier == "quick" else 1500} for i in range(n)]
+    ngen = 220 if tier == "quick" else 2000
+    return [{"name": f"coord-{i}", "n": ngen, "rseed": seed * 7919 + i, "nerr": 160 if tier == "quick" else 1500} for i in range(n)]
 
 
 def _coord_key(c):
